@@ -726,25 +726,36 @@ def F7(m, R):
     for k in members:
         up = k.upper()
         role[k] = 'RESET' if 'RESET' in up else 'APPLY' if 'APPLY' in up else 'CLEAR' if 'CLEAR' in up else '?'
-    # effect variable: from initial_param.effect_type
-    effv = fnv_src = None
-    for n in f.walk():
-        if isinstance(n, ast.Assign) and isinstance(n.value, ast.Attribute):
-            if n.value.attr == 'effect_type':
-                effv = norm(n.targets[0])
-            if n.value.attr == 'effect_fn' and norm(n.targets[0]) == fnvar:
-                fnv_src = norm(n.value.value)
+    # effect group and function come from the first parameter of the setting being visited: follow the locals
     lpv = next((norm(n.target) for n in f.walk() if isinstance(n, ast.For) and norm(n.iter) == settings), None)
-    R.check(effv is not None and fnv_src is not None and lpv is not None, f, chain, 'effect group and function come from the setting\'s first parameter; every setting is visited',
-            construct='dispatch inputs')
+    param_texts = {'%s.get_initial_param()' % lpv} if lpv else set()
+    for n in f.walk():
+        if isinstance(n, ast.Assign) and len(n.targets) == 1 and isinstance(n.targets[0], ast.Name) and norm(n.value) in param_texts:
+            param_texts.add(n.targets[0].id)
+    eff_texts = {'%s.effect_type' % p_ for p_ in param_texts}
+    fn_texts = {'%s.effect_fn' % p_ for p_ in param_texts}
+    for n in f.walk():
+        if isinstance(n, ast.Assign) and len(n.targets) == 1 and isinstance(n.targets[0], ast.Name):
+            if norm(n.value) in eff_texts:
+                eff_texts.add(n.targets[0].id)
+            if norm(n.value) in fn_texts:
+                fn_texts.add(n.targets[0].id)
+    R.check(lpv is not None and fnvar in fn_texts, f, chain, 'effect group and function come from the setting\'s first parameter; every setting is visited',
+            'the dispatch variable %s is not the effect function of the visited setting\'s first parameter' % fnvar, construct='dispatch inputs')
+
+    def generic(txt):
+        """statement text with the effect-group expression written <EFF>"""
+        for e_ in sorted(eff_texts, key=len, reverse=True):
+            txt = re.sub(r'(?<![\w.])%s(?![\w(])' % re.escape(e_), '<EFF>', txt)
+        return txt
     for k, body in arms.items():
         cons = 'dispatch ' + role[k]
-        texts = [norm(s) for s in body]
+        texts = [generic(norm(s_)) for s_ in body]
         if role[k] == 'APPLY':
-            R.check(texts == ['%s[%s] = %s' % (d, effv, lpv)], f, body[0] if body else chain, 'APPLY stores the setting under its group',
+            R.check(texts == ['%s[<EFF>] = %s' % (d, lpv)], f, body[0] if body else chain, 'APPLY stores the setting under its group',
                     'APPLY arm does %s' % texts, construct=cons)
         elif role[k] == 'CLEAR':
-            ok = texts in (['if %s in %s:\n    del %s[%s]' % (effv, d, d, effv)], ['%s.pop(%s, None)' % (d, effv)])
+            ok = texts in (['if <EFF> in %s:\n    del %s[<EFF>]' % (d, d)], ['%s.pop(<EFF>, None)' % d])
             R.check(ok, f, body[0] if body else chain, 'CLEAR deletes the group if present', 'CLEAR arm does %s' % texts, construct=cons)
         elif role[k] == 'RESET':
             ok = texts in (['%s = {}' % d], ['%s.clear()' % d], ['%s = dict()' % d])
